@@ -27,7 +27,7 @@ Definition run_case (line : bytes) : bytes :=
            (* a rule whose match is outside the modelled fragment makes the request undecidable *)
            if existsb (fun ri => match rule_match psl (fst ri) q with Unsupported => true | _ => false end) nrs
            then Unsupported
-           else Ok (sorted_set (map nr_text (match_all djb2 psl retr e q))))
+           else Ok (sorted_multi (map nr_text (match_all djb2 psl retr e q))))
            (split_byte "|"%byte (nth_field fs 2))))
     | Err => $"E" | Crash => $"P" | Unsupported => $"U"
     end
